@@ -48,7 +48,7 @@ Comparable(a, b) == (IsInt(a) /\ IsInt(b)) \/ (IsBool(a) /\ IsBool(b)) \/ (IsStr
 Cmp(op, a, b) ==
   IF IsNullV(a) \/ IsNullV(b) THEN Null
   ELSE IF op = "=" /\ Comparable(a, b) THEN B(a = b)
-  ELSE IF op = "<>" /\ Comparable(a, b) THEN B(a # b)
+  ELSE IF op = "<>" THEN (IF Comparable(a, b) THEN B(a # b) ELSE Opq("not", <<Opq("=", <<a, b>>)>>))   \* x <> y is NOT (x = y)
   ELSE IF IsInt(a) /\ IsInt(b) THEN
          B(CASE op = "<" -> a.n < b.n [] op = "<=" -> a.n <= b.n [] op = ">" -> a.n > b.n [] op = ">=" -> a.n >= b.n)
   ELSE Opq(op, <<a, b>>)
@@ -110,6 +110,27 @@ InV(x, vs) ==
 
 IndexV(x, i) == Opq("[]", <<x, i>>)
 
+\* a function passed through by name: ClickHouse's own spelling of an operator means what the operator means
+\* (on both sides: PQL passes the name through, so it denotes the SQL function)
+RECURSIVE CatAll(_, _), MultiIf(_, _)
+CatAll(as, n) == IF n = 1 THEN as[1] ELSE Concat(CatAll(as, n - 1), as[n])
+MultiIf(as, i) == IF i = Len(as) THEN as[i] ELSE CaseV(as[i], as[i + 1], MultiIf(as, i + 2))
+NamedFn(fn, as) ==
+  CASE fn \in {"concat", "CONCAT"} /\ Len(as) >= 2 -> CatAll(as, Len(as))
+    [] fn \in {"if", "IF"} /\ Len(as) = 3 -> CaseV(as[1], as[2], as[3])
+    [] fn = "multiIf" /\ Len(as) >= 3 /\ Len(as) % 2 = 1 -> MultiIf(as, 1)
+    [] fn = "isNull" /\ Len(as) = 1 -> IsNullF(as[1])
+    [] fn = "isNotNull" /\ Len(as) = 1 -> Not3(IsNullF(as[1]))
+    [] fn \in {"ifNull", "coalesce", "COALESCE"} /\ Len(as) = 2 -> (IF as[2] = B(FALSE) THEN CoalesceF(as[1]) ELSE Coalesce2(as[1], as[2]))
+    [] fn = "equals" /\ Len(as) = 2 -> Cmp("=", as[1], as[2])
+    [] fn = "notEquals" /\ Len(as) = 2 -> Cmp("<>", as[1], as[2])
+    [] fn \in {"lower", "LOWER"} /\ Len(as) = 1 -> Lower(as[1])
+    [] fn \in {"upper", "UPPER"} /\ Len(as) = 1 -> Upper(as[1])
+    [] fn \in {"now", "NOW"} /\ Len(as) = 0 -> Opq("now", <<>>)
+    [] fn \in {"count", "COUNT"} /\ Len(as) = 0 -> Opq("count", <<>>)
+    [] fn = "countIf" /\ Len(as) = 1 -> Opq("countif", <<as[1]>>)
+    [] OTHER -> Opq("fn:" \o fn, as)
+
 \* the documented meaning of the PQL comparison operators
 PEq(a, b) == CoalesceF(Cmp("=", a, b))                  \* == never NULL
 PNe(a, b) == CoalesceF(Cmp("<>", a, b))                 \* != never NULL
@@ -170,7 +191,7 @@ EvalP(e, row) ==
            [] e.fn = "now" /\ Len(as) = 0 -> Opq("now", <<>>)
            [] e.fn = "count" /\ Len(as) = 0 -> Opq("count", <<>>)
            [] e.fn = "countif" /\ Len(as) = 1 -> Opq("countif", <<as[1]>>)
-           [] OTHER -> Opq("fn:" \o e.fn, as)
+           [] OTHER -> NamedFn(e.fn, as)
 
 RECURSIVE EvalS(_, _), EvalSs(_, _)
 EvalSs(es, row) == [i \in DOMAIN es |-> EvalS(es[i], row)]
@@ -204,10 +225,5 @@ EvalS(s, row) ==
     [] s.k = "CountIf" -> Opq("countif", <<EvalS(s.x, row)>>)
     [] s.k = "Star" -> Opq("*", <<>>)
     [] s.k = "Call" ->
-         LET as == EvalSs(s.args, row) f == LowerName(s.fn) IN
-         CASE f = "lower" /\ Len(as) = 1 -> Lower(as[1])
-           [] f = "upper" /\ Len(as) = 1 -> Upper(as[1])
-           [] f = "coalesce" /\ Len(as) = 2 -> (IF as[2] = B(FALSE) THEN CoalesceF(as[1]) ELSE Coalesce2(as[1], as[2]))
-           [] f = "count" /\ Len(as) = 0 -> Opq("count", <<>>)
-           [] OTHER -> Opq("fn:" \o s.fn, as)
+         NamedFn(s.fn, EvalSs(s.args, row))
 =============================================================================
